@@ -26,7 +26,7 @@ extern "C" __attribute__((used, visibility("default"))) const char* __asan_defau
 }
 extern "C" __attribute__((used, visibility("default"))) const char* __ubsan_default_options()
 {
-  return "halt_on_error=1:exitcode=77:print_stacktrace=1";
+  return "halt_on_error=1:exitcode=77:print_stacktrace=1:suppressions=/verif/sim/ubsan.supp";
 }
 
 namespace sk {
